@@ -68,3 +68,10 @@ external('keys_list', [('d', 'dict[str, Refl]')], 'list[str]', axioms=[
 	({'d': 'dict[str, Refl]', 'i': 'int', 'j': 'int'}, 'implies(0 <= i and i < j and j < len(keys_list(d)), keys_list(d)[i] != keys_list(d)[j])'),
 ], note='dict.keys() as a list: exactly the keys, each once')
 external('kix', [('d', 'dict[str, Refl]'), ('k', 'str')], 'int', note='Skolem function: position of key k in dict.keys()')
+
+
+external('keys_of_module', [('items', 'dict[str, Refl]'), ('paths', 'dict[str, tuple[str, str]]'), ('m', 'str')], 'list[str]', axioms=[
+	({'i': 'dict[str, Refl]', 'p': 'dict[str, tuple[str, str]]', 'm': 'str', 'j': 'int'}, 'implies(0 <= j and j < len(keys_of_module(i, p, m)), keys_of_module(i, p, m)[j] in i and p[keys_of_module(i, p, m)[j]][0] == m)'),
+	({'i': 'dict[str, Refl]', 'p': 'dict[str, tuple[str, str]]', 'm': 'str', 'k': 'str'}, 'implies(k in i and p[k][0] == m, k in keys_of_module(i, p, m))'),
+	({'i': 'dict[str, Refl]', 'p': 'dict[str, tuple[str, str]]', 'm': 'str', 'a': 'int', 'b': 'int'}, 'implies(0 <= a and a < b and b < len(keys_of_module(i, p, m)), keys_of_module(i, p, m)[a] != keys_of_module(i, p, m)[b])'),
+], note='[key for key in items.keys() if paths[key][0] == m]: exactly the keys of module m, each once (the comprehension over dict keys read as its specification)')
